@@ -175,6 +175,8 @@ func (r *Run) Event(s string) {
 
 var streamEvents = os.Getenv("VERIF_STREAM") != ""
 
+var stackAtStep = int(envInt("VERIF_STACK_AT", 0))
+
 func (r *Run) schedEvent(id int, site string) {
 	r.mu.Lock()
 
@@ -512,6 +514,12 @@ func (r *Run) Sched(o SchedOpts) {
 		idle = 0
 		steps++
 		r.Steps++
+
+		if stackAtStep > 0 && r.Steps == stackAtStep { // development aid
+			buf := make([]byte, 16<<20)
+			n := runtime.Stack(buf, true)
+			fmt.Fprintf(os.Stderr, "STACKS at step %d:\n%s\n", r.Steps, buf[:n])
+		}
 
 		if r.Steps&1023 == 0 {
 			progress.Add(1) // the watchdog watches the kernel loop, not the length of a run
